@@ -251,6 +251,49 @@ theorem numLeaf_seg {t : E} {s : List Char} (h : NumLeaf t s) :
   | nan s h => exact (tag_seg (by simp) (by decide) h).weak
   | inf s h => exact (tag_seg (by simp) (by decide) h).weak
 
+/-- is the leaf one of the two number words `nan` / `inf`? -/
+def isWord : E → Bool
+  | .litNan => true
+  | .litInf => true
+  | _ => false
+
+/-- a decimal literal ends with a digit or a dot, a number word with a letter (this is what the
+    guard of `parse_const` tests on the text consumed by `double`) -/
+theorem numLeaf_last {t : E} {s : List Char} (h : NumLeaf t s) :
+    ∃ c, s.getLast? = some c ∧ isAlpha c = isWord t := by
+  have key : ∀ {m fd ev ms es}, Mantissa m fd ms → Exponent ev es →
+      Seg [.digit, .dot] [.digit, .dot] [.digit, .dot, .plus, .minus, .alpha] (ms ++ es) := by
+    intro m fd ev ms es hm he
+    rcases exponent_seg he with rfl | hes
+    · simpa using (mantissa_seg hm).weak
+    · exact (mantissa_seg hm).app hes
+  have notAlpha : ∀ c : Char, cls c ∈ [Cls.digit, Cls.dot] → isAlpha c = false := by
+    intro c hc
+    cases ha : isAlpha c with
+    | false => rfl
+    | true => rw [cls_alpha ha] at hc; exact absurd hc (by decide)
+  have word : ∀ {pat s : List Char}, pat ≠ [] → (∀ x ∈ pat, isAlpha x = true) → s.map lower = pat →
+      ∃ c, s.getLast? = some c ∧ isAlpha c = true := by
+    intro pat s hpat hp hs
+    cases hl : s.getLast? with
+    | none =>
+      have : s = [] := by simpa using hl
+      subst this
+      exact absurd (by simpa using hs.symm) hpat
+    | some c =>
+      refine ⟨c, rfl, alpha_of_lower (hp _ ?_)⟩
+      rw [← hs]; exact List.mem_map_of_mem (List.mem_of_getLast? hl)
+  cases h with
+  | dec m fd ev ms es hm he =>
+    obtain ⟨c, hc, hk⟩ := (key hm he).last
+    exact ⟨c, hc, notAlpha c hk⟩
+  | plusDec m fd ev ms es hm he =>
+    obtain ⟨c, hc, hk⟩ := ((Seg.ch '+' .plus).app (s2 := ms ++ es) (key hm he)
+      (F := [.plus]) (L := [.digit, .dot]) (A := [.plus, .digit, .dot, .plus, .minus, .alpha])).last
+    exact ⟨c, hc, notAlpha c hk⟩
+  | nan s h => exact word (by simp) (by decide) h
+  | inf s h => exact word (by simp) (by decide) h
+
 theorem i32_seg {n : Int} {s : List Char} (h : I32Text n s) :
     Seg [.digit, .plus, .minus] [.digit] [.digit, .plus, .minus] s := by
   cases h with
